@@ -37,6 +37,7 @@ pub fn decode(tape: &[u16]) -> Case {
     }
     let specs: Vec<Vec<u16>> = (0..4).map(|_| { let k = t.range(0, 6); (0..k).map(|_| t.frac()).collect() }).collect();
     let input = input_in(&mut t, &InputOpts { max_frags: 14, ..Default::default() }, enc);
+    let input = crate::gens::input::maybe_long(&mut t, input, 25);
     let random = specs.iter().map(|f| { let mut v: Vec<usize> = f.iter().map(|x| crate::tape::frac_to_pos(*x, input.len())).collect(); v.sort(); v }).collect();
     Case { input, cfg, random }
 }
